@@ -14,7 +14,9 @@ def run(ctx):
     f = ctx.facts("default")
     ctx.run_rule("R1", hc.rule_C03, f)
     # "the snapshot taken after all threads have finished describes exactly all observations": the bucket a value lands in is part of the description
-    from . import C06, C08
+    from . import C06, C08, controls
+    ctx.run_rule("R7", lambda c: controls.rule_no_manual_send_sync(c, f, "R7", "a local batch is all-or-nothing only if nobody else can update the batch between the claim and clear() of "
+                                                                           "one flush; that exclusivity comes from LocalHistogram being !Sync"))
     ctx.rule("R6", "an observation is recorded in the bucket the snapshot attributes it to, on the direct and on the local path (shared with C08.R4): first bound with v <= bound, "
                    "count and sum unconditional")
     ctx.run_rule("R6", lambda c: C06._as(c, "R6", lambda s_: C08.rule_R4(s_, f)))
